@@ -158,10 +158,12 @@ func allInDomain(l []string) bool {
 
 func runC12(ctx *runCtx) {
 	rep := ctx.rep
-	rep.Rule = "origins built from components (scheme x userinfo tricks x host x port x path/query/fragment containing the victim host) so that the true authority is known by construction, against Host values and pattern sets (literals, *, ?, mixed case); look-alikes (suffix, prefix, sub-domain, trailing dot), 'null', schemeless and malformed origins; InsecureSkipVerify; through Accept (403, no upgrade headers, no hijack) and authenticateOrigin; " +
+	rep.Rule = "origins built from components (scheme x userinfo tricks x host x port x path/query/fragment containing the victim host) so that the true authority is known by construction, against Host values (DNS names, ports, IPv6 literals, i.e. Hosts that would be character classes if they were treated as patterns) and pattern sets (literals, *, ?, mixed case); look-alikes (suffix, prefix, sub-domain, trailing dot), 'null', schemeless and malformed origins; InsecureSkipVerify; through Accept (403, no upgrade headers, no hijack) and authenticateOrigin; " +
 		"filepath.Match vs the Lean glob model on a pattern grammar incl. malformed patterns. Ground truth: accept iff no Origin, skip, true host equals Host case-insensitively, or a pattern matches the true host. distinct = case tuple"
 	rng := newRng(ctx.seed, "c12")
-	victim := []string{"example.com", "Example.COM", "example.com:8080", "api.example.com", "localhost:3000"}
+	// the request's own Host is compared for equality (case-insensitively), never used as a pattern: Hosts with
+	// glob metacharacters (IPv6 literals are character classes to filepath.Match) must behave like any other
+	victim := []string{"example.com", "Example.COM", "example.com:8080", "api.example.com", "localhost:3000", "[::1]:8080", "[2001:db8::1]", "[::1]"}
 	hosts := []string{"example.com", "EXAMPLE.com", "evil.com", "example.com.evil.com", "evilexample.com", "example.comx", "xexample.com", "sub.example.com", "example.com.", "example.co", "api.example.com", "localhost", "127.0.0.1", "[::1]", "exKample.com", "eſample.com"}
 	schemes := []string{"https", "http", "HTTPS", "ws", "chrome-extension"}
 	users := []string{"", "", "example.com@", "user:pw@", "example.com:443@", "a@b@"}
